@@ -877,6 +877,10 @@ func (c *Ctx) pathN(v ssa.Value, depth int) string {
 		// rewritten as index loops, and variables moved into cells because a function literal captures them
 		switch x := v.(type) {
 		case *ssa.Parameter:
+			// the parameter of a function literal that is called where it is made stands for its argument
+			if arg, _ := inPlaceArg(x); arg != nil {
+				return c.pathN(arg, depth)
+			}
 			if x.Parent() != nil {
 				for i, p := range x.Parent().Params {
 					if p == x {
@@ -1219,4 +1223,72 @@ func storedTo(v ssa.Value, al *ssa.Alloc) bool {
 		}
 	}
 	return false
+}
+
+// inPlaceCall: fn is a function literal with exactly one MakeClosure (or direct reference) in its
+// parent, which is called right there and used for nothing else; returns that call.
+var inPlaceCache = map[*ssa.Function]*ssa.Call{}
+var inPlaceKnown = map[*ssa.Function]bool{}
+
+func inPlaceCall(fn *ssa.Function) *ssa.Call {
+	if inPlaceKnown[fn] {
+		return inPlaceCache[fn]
+	}
+	res := inPlaceCallUncached(fn)
+	inPlaceKnown[fn] = true
+	inPlaceCache[fn] = res
+	return res
+}
+
+func inPlaceCallUncached(fn *ssa.Function) *ssa.Call {
+	par := fn.Parent()
+	if par == nil {
+		return nil
+	}
+	var found *ssa.Call
+	n := 0
+	for _, b := range par.Blocks {
+		for _, in := range b.Instrs {
+			call, ok := in.(*ssa.Call)
+			if !ok {
+				continue
+			}
+			switch v := call.Call.Value.(type) {
+			case *ssa.MakeClosure:
+				if v.Fn == ssa.Value(fn) {
+					if refs := v.Referrers(); refs != nil && len(*refs) == 1 {
+						found = call
+						n++
+					}
+				}
+			case *ssa.Function:
+				if v == fn {
+					found = call
+					n++
+				}
+			}
+		}
+	}
+	if n != 1 {
+		return nil
+	}
+	return found
+}
+
+// inPlaceArg: p is a parameter of a literal called in place: the argument it is bound to, and the call.
+func inPlaceArg(p *ssa.Parameter) (ssa.Value, *ssa.Call) {
+	fn := p.Parent()
+	if fn == nil || fn.Parent() == nil {
+		return nil, nil
+	}
+	call := inPlaceCall(fn)
+	if call == nil {
+		return nil, nil
+	}
+	for i, fp := range fn.Params {
+		if fp == p && i < len(call.Call.Args) {
+			return call.Call.Args[i], call
+		}
+	}
+	return nil, nil
 }
